@@ -23,6 +23,7 @@ import (
 	"github.com/smart-core-os/sc-golang/pkg/trait/electricpb"
 	"github.com/smart-core-os/sc-golang/pkg/trait/enterleavesensorpb"
 	"github.com/smart-core-os/sc-golang/pkg/trait/metadatapb"
+	"github.com/smart-core-os/sc-golang/pkg/trait/modepb"
 	"github.com/smart-core-os/sc-golang/pkg/trait/parentpb"
 	"github.com/smart-core-os/sc-golang/pkg/trait/publicationpb"
 	"github.com/smart-core-os/sc-golang/pkg/trait/vendingpb"
@@ -523,6 +524,61 @@ func enterLeaveSys() *sys {
 	return s
 }
 
+// modeServerSys: the mode trait through its server, whose relative updates are worked out by an interceptor from the
+// stored values: absolute and relative-only updates interleaved, every answer kept.
+func modeServerSys() *sys {
+	md := modepb.NewModel()
+	srv := modepb.NewModelServer(md)
+	s := &sys{name: "modepb.ModelServer(relative)"}
+	s.state = func() []proto.Message { return []proto.Message{proto.Clone(md.ModeValues())} }
+	var first, second string
+	if ms := md.Modes().GetModes(); len(ms) > 0 {
+		first = ms[0].Name
+		second = ms[len(ms)-1].Name
+	}
+	upd := func(name string, req func() *traits.UpdateModeValuesRequest) sop {
+		return sop{name: name, run: func(m *mon, ctx context.Context) {
+			r := req()
+			write(m, s, name, r, func() {
+				if res, err := srv.UpdateModeValues(ctx, r); err == nil {
+					m.reg(name+" result", res)
+				}
+			})
+		}}
+	}
+	s.ops = []sop{
+		upd("UpdateModeValues(relative "+first+"+1)", func() *traits.UpdateModeValuesRequest {
+			return &traits.UpdateModeValuesRequest{Name: "n", Relative: &traits.ModeValuesRelative{Values: map[string]int32{first: 1}}}
+		}),
+		upd("UpdateModeValues(relative "+second+"-1)", func() *traits.UpdateModeValuesRequest {
+			return &traits.UpdateModeValuesRequest{Name: "n", Relative: &traits.ModeValuesRelative{Values: map[string]int32{second: -1}}}
+		}),
+		upd("UpdateModeValues(absolute "+first+")", func() *traits.UpdateModeValuesRequest {
+			v := ""
+			for _, mo := range md.Modes().GetModes() {
+				if mo.Name == first && len(mo.Values) > 1 {
+					v = mo.Values[1].Name
+				}
+			}
+			return &traits.UpdateModeValuesRequest{Name: "n", ModeValues: &traits.ModeValues{Values: map[string]string{first: v}}, UpdateMask: &fieldmaskpb.FieldMask{Paths: []string{"values"}}}
+		}),
+		{name: "GetModeValues()", readonly: true, run: func(m *mon, ctx context.Context) {
+			if x, err := srv.GetModeValues(ctx, &traits.GetModeValuesRequest{Name: "n"}); err == nil {
+				m.reg("GetModeValues()", x)
+			}
+		}},
+		{name: "PullModeValues()", readonly: true, run: func(m *mon, ctx context.Context) {
+			ch := md.PullModeValues(ctx, resource.WithBackpressure(true))
+			go func() {
+				for e := range ch {
+					m.reg("PullModeValues event", e.Value)
+				}
+			}()
+		}},
+	}
+	return s
+}
+
 func electricSys() *sys {
 	e := electricpb.NewModel()
 	s := &sys{name: "electricpb.Model"}
@@ -833,7 +889,7 @@ func builders() map[string]func() *sys {
 		"Value": valueSys, "Value(equivalence)": valueEqSys, "Collection": collectionSys, "parentpb.Model": parentSys, "metadatapb.Model": metadataSys,
 		"enterleavesensorpb.Model": enterLeaveSys, "electricpb.Model": electricSys, "vendingpb.Model": vendingSys, "publicationpb.Model": publicationSys,
 		"openclosepb.Model(presets)": openCloseSys, "lightpb.Model(presets)": lightSys,
-		"electricpb.Model(active mode write-restricted)": electricRestrictedSys, "wastepb.Model": wasteSys,
+		"electricpb.Model(active mode write-restricted)": electricRestrictedSys, "wastepb.Model": wasteSys, "modepb.ModelServer(relative)": modeServerSys,
 	}
 	for _, e := range reg.Servers {
 		e := e
